@@ -1173,5 +1173,7 @@ package zygo
 //@ func (*Generator).generateSyntaxQuoteList
 //@ C09,C15 requires template-code-not-tail: !gen.Tail
 //@ C09,C15 assert unquote-not-tail @before call Generate[*]: arg0 == gen && !gen.Tail
+//@ func (*Generator).generateSyntaxQuoteArg
+//@ C09,C15 requires template-code-not-tail: !gen.Tail
 //@ func (*Generator).GenerateSyntaxQuote
 //@ C09,C15 ensures keeps-own-tail: r0 == nil ==> gen.Tail == old(gen.Tail)
